@@ -31,6 +31,7 @@ func PlanCases(prop, tier string, seed int64) (cases []*Case, rule []string) {
 	case "C01":
 		add(n(160, 2000), "build a random batch in a random chunk mode and dump every API answer", func() *Case { return g.BuildObs(false) })
 		add(n(2, 24), "the same with 1030-1330 documents (adaptive multi-chunk postings)", func() *Case { return g.BuildObs(true) })
+		add(n(1, 6), "2,050-2,250 documents, two doc-value fields of different sparsity (values only in the first documents / nothing in the middle chunk) written one after the other, built and merged", func() *Case { return g.SparseDVFields(false) })
 		add(n(20, 300), "the byte layout the builder writes (chunks, stored blocks, doc-value chunks) compared with the model's", func() *Case { return g.LayoutCase(false) })
 		add(n(25, 300), "postings looked up through reused lists and iterators (nothing the batch does not imply, also for absent terms)", func() *Case { return g.IterCase(8) })
 	case "C02":
@@ -39,30 +40,47 @@ func PlanCases(prop, tier string, seed int64) (cases []*Case, rule []string) {
 		add(n(4, 40), "a 1,030-2,400 document segment merged with deletions (several doc-value chunks; dense terms whose cardinality crosses 1,024 through the deletions; an empty doc-value chunk)", func() *Case { return g.BigMerge() })
 		add(n(20, 300), "the byte layout the merger writes compared with the model's", func() *Case { return g.LayoutCase(false) })
 		add(n(2, 20), "merges whose term cardinalities sit around the 1,024-posting boundary of the adaptive chunk mode (above, crossing through the deletions, an empty first term after a long last term)", func() *Case { return g.ChunkBoundaryMerge() })
+		add(n(8, 120), "twin segments (same shape and offsets, different term bytes or frequencies): lists, iterators, doc-value readers carried from one to the other, then merged", func() *Case { return g.TwinCase() })
+		add(n(4, 60), "merges through the stored-field re-encoding path (deletions, differing field lists) with more than 128 survivors: renumbering across a stored block", func() *Case { return g.ReencodeBlockMerge() })
+		add(n(5, 60), "a zero-document merge output that kept its field list, reloaded and merged in every position with a segment that has fewer fields", func() *Case { return g.ZeroDocFieldsMerge() })
+		add(n(1, 9), "merges with exactly 1,024 or 2,048 survivors (last doc-value and postings chunk exactly full), dumped, reloaded from memory and from a file", func() *Case { return g.ExactChunkMerge() })
+		add(n(1, 6), "three segments sharing the empty term whose cardinality only the sum of all three takes above 1,024: flat, left, right bracketing and single-segment merge dumped", func() *Case { return g.BigAssoc() })
 	case "C03":
 		add(n(140, 2000), "merge with random deletion sets (nil, empty, sparse, dense, everything) and report DocumentNumbers", func() *Case { return g.MergeObs() })
 		add(n(12, 150), "segments with identical field lists merged without deletions (byte-copy path across 128-document blocks): content at the reported numbers", func() *Case { return g.CopyPathMerge() })
+		add(n(4, 60), "merges through the stored-field re-encoding path (deletions, differing field lists) with more than 128 survivors: renumbering across a stored block", func() *Case { return g.ReencodeBlockMerge() })
+		add(n(5, 60), "a zero-document merge output that kept its field list, reloaded and merged in every position with a segment that has fewer fields", func() *Case { return g.ZeroDocFieldsMerge() })
+		add(n(1, 6), "three segments sharing the empty term whose cardinality only the sum of all three takes above 1,024: flat, left, right bracketing and single-segment merge dumped", func() *Case { return g.BigAssoc() })
 	case "C04":
 		add(n(30, 400), "persist every segment of a random merge tree; the byte-exact loader models (footer, fields section, stored trailer and index, doc-value locations) run on the real bytes and must read what the loader reads", func() *Case { return g.FooterCase() })
 		add(n(110, 1500), "build or merge, dump, reload from memory and from a file, re-persist the loaded segment, dump each", func() *Case { return g.PersistLoad() })
+		add(n(2, 12), "merges with exactly 1,024 or 2,048 survivors (last doc-value and postings chunk exactly full), dumped, reloaded from memory and from a file", func() *Case { return g.ExactChunkMerge() })
+		add(n(4, 40), "a zero-document merge output that kept its field list, reloaded and merged in every position with a segment that has fewer fields", func() *Case { return g.ZeroDocFieldsMerge() })
 	case "C05":
 		add(n(150, 2500), "a built/loaded/merged segment and 8 iterators with random exclusions, flags, Next/Advance sequences", func() *Case { return g.IterCase(8) })
 		add(n(2, 20), "merges whose term cardinalities sit around the 1,024-posting boundary of the adaptive chunk mode (writer and reader must derive the same chunk size)", func() *Case { return g.ChunkBoundaryMerge() })
+		add(n(8, 120), "twin segments (same shape and offsets, different term bytes or frequencies): lists, iterators, doc-value readers carried from one to the other, then merged", func() *Case { return g.TwinCase() })
 	case "C13":
 		add(n(150, 2500), "histories of 14 lookups reusing postings lists and iterators across terms, encodings and flags", func() *Case { return g.IterCase(14) })
 		add(n(40, 600), "doc-value readers reused across visit sequences", func() *Case { return g.DVCase(false) })
 		add(n(2, 30), "one doc-value reader reused across 1024-document chunks (1030-2230 documents)", func() *Case { return g.DVCase(true) })
 		add(n(1, 20), "one reader hopping through an empty chunk", func() *Case { return g.DVHop() })
 		add(n(40, 600), "dictionary enumeration on reused dictionaries", func() *Case { return g.DictCase() })
+		add(n(12, 150), "twin segments (same shape and offsets, different term bytes or frequencies): lists, iterators, doc-value readers carried from one to the other, then merged", func() *Case { return g.TwinCase() })
 	case "C06":
 		add(n(130, 2000), "stored-field visits in random order with early stop and out-of-range numbers", func() *Case { return g.StoredCase(false) })
 		add(n(12, 200), "the same on 120-420 documents (several 128-document blocks, short records)", func() *Case { return g.StoredCase(true) })
 		add(n(12, 150), "merges through the stored-field byte-copy path whose output blocks end inside a source block", func() *Case { return g.CopyPathMerge() })
+		add(n(4, 60), "merges through the stored-field re-encoding path (deletions, differing field lists) with more than 128 survivors: renumbering across a stored block", func() *Case { return g.ReencodeBlockMerge() })
+		add(n(5, 60), "a zero-document merge output that kept its field list, reloaded and merged in every position with a segment that has fewer fields", func() *Case { return g.ZeroDocFieldsMerge() })
 	case "C07":
 		add(n(120, 1800), "doc-value readers over field subsets, forward/backward/random visits", func() *Case { return g.DVCase(false) })
 		add(n(3, 40), "the same on 1030-2230 documents (several 1024-document chunks)", func() *Case { return g.DVCase(true) })
 		add(n(2, 30), "2100-3000 documents with a whole 1024-document chunk empty in one field; one reader hops chunk A, the empty chunk, chunk A", func() *Case { return g.DVHop() })
 		add(n(3, 30), "merges of 1,030-2,400 document segments (dense terms, a doc-value chunk without one field) dumped completely", func() *Case { return g.BigMerge() })
+		add(n(1, 10), "2,050-2,250 documents, two doc-value fields of different sparsity (values only in the first documents / nothing in the middle chunk) written one after the other, built and merged", func() *Case { return g.SparseDVFields(false) })
+		add(n(1, 9), "merges with exactly 1,024 or 2,048 survivors (last doc-value and postings chunk exactly full), dumped, reloaded from memory and from a file", func() *Case { return g.ExactChunkMerge() })
+		add(n(6, 80), "twin segments (same shape and offsets, different term bytes or frequencies): lists, iterators, doc-value readers carried from one to the other, then merged", func() *Case { return g.TwinCase() })
 	case "C08":
 		add(n(150, 2500), "dictionary enumeration with key ranges and prefix automata, Contains", func() *Case { return g.DictCase() })
 		add(n(25, 300), "PostingsList lookups of known, unknown-term and unknown-field entries through reused lists (an unknown term yields an empty list whatever was looked up before)", func() *Case { return g.IterCase(10) })
@@ -73,6 +91,7 @@ func PlanCases(prop, tier string, seed int64) (cases []*Case, rule []string) {
 	case "C17":
 		add(n(3, 30), "single-segment and two-segment merges of 1,030-2,400 document segments (dense terms above 1,024 postings with deletions, an empty doc-value chunk): the model is the flat merge", func() *Case { return g.BigMerge() })
 		add(n(70, 900), "2-4 built segments with random deletions: flat merge, two left bracketings (deletions inside / translated through DocumentNumbers), right bracketing, single-segment merges; full dumps of all variants", func() *Case { return g.AssocCase() })
+		add(n(1, 8), "three segments sharing the empty term whose cardinality only the sum of all three takes above 1,024: flat, left, right bracketing and single-segment merge dumped", func() *Case { return g.BigAssoc() })
 	case "C18":
 		add(n(150, 2500), "DocsMatchingTerms over mixed, repeated, unknown-field and unknown-term lists", func() *Case { return g.DocsMatchingCase() })
 	case "C10":
@@ -80,6 +99,7 @@ func PlanCases(prop, tier string, seed int64) (cases []*Case, rule []string) {
 		add(n(2, 20), "the same for a 1030-1430 document segment and its merge (adaptive chunk sizes, several stored blocks and doc-value chunks)", func() *Case { return g.LayoutCase(true) })
 		add(n(1, 10), "a merge whose term cardinalities sit around the 1,024-posting boundary of the adaptive chunk mode", func() *Case { return g.ChunkBoundaryMerge() })
 		add(n(30, 400), "build or merge, dump, reload from memory and from a file (the model-compared part: the current code round-trips its own files)", func() *Case { return g.PersistLoad() })
+		add(n(1, 8), "2,050-2,250 documents, two doc-value fields of different sparsity (values only in the first documents / nothing in the middle chunk) written one after the other, built and merged", func() *Case { return g.SparseDVFields(true) })
 	case "C12":
 		add(n(20, 300), "merge and persist workloads whose complete output is compared with the model (the fault-free baseline of the fault enumeration)", func() *Case { return g.PersistLoad() })
 	case "C14":
@@ -116,19 +136,19 @@ func NontrivialTags(prop string) map[string]bool {
 	case "C01":
 		set("multi_chunk", "repeated_field", "composite_loc")
 	case "C02":
-		set("multi_chunk", "merge_of_merge", "drops_and_survivors", "chunk_boundary")
+		set("multi_chunk", "merge_of_merge", "drops_and_survivors", "chunk_boundary", "twin_segments", "reencode_path", "zero_doc_input_with_fields", "exact_chunk_multiple")
 	case "C03":
-		set("drops_and_survivors", "zero_survivors", "copy_path")
+		set("drops_and_survivors", "zero_survivors", "copy_path", "reencode_path", "zero_doc_input_with_fields")
 	case "C04":
-		set("merge", "empty_batch", "zero_survivors", "multi_chunk")
+		set("merge", "empty_batch", "zero_survivors", "multi_chunk", "exact_chunk_multiple")
 	case "C05":
-		set("exclusion", "multi_chunk", "replace_actual", "clean_path")
+		set("exclusion", "multi_chunk", "replace_actual", "clean_path", "reuse_across_segments")
 	case "C13":
-		set("reuse_pl", "reuse_it", "reader_reuse")
+		set("reuse_pl", "reuse_it", "reader_reuse", "reuse_across_segments")
 	case "C06":
-		set("block_edge", "early_stop", "multi_block", "copy_path")
+		set("block_edge", "early_stop", "multi_block", "copy_path", "reencode_path")
 	case "C07":
-		set("dv_chunk_reentry", "reader_reuse")
+		set("dv_chunk_reentry", "reader_reuse", "sparse_dv_fields", "exact_chunk_multiple", "twin_segments")
 	case "C08":
 		set("merged", "loaded", "built")
 	case "C16":
@@ -136,7 +156,7 @@ func NontrivialTags(prop string) map[string]bool {
 	case "C11":
 		set("repersist_loaded")
 	case "C10":
-		set("merge", "multi_chunk", "layout_multi_chunk_term", "layout_multi_block", "layout_1hit")
+		set("merge", "multi_chunk", "layout_multi_chunk_term", "layout_multi_block", "layout_1hit", "sparse_dv_fields")
 	case "C12", "C19":
 		set("merge", "multi_chunk", "empty_batch", "zero_survivors")
 	case "C14":
@@ -146,7 +166,7 @@ func NontrivialTags(prop string) map[string]bool {
 	case "C09":
 		set("merged", "loaded", "built")
 	case "C17":
-		set("three_inputs_drop_nonlast", "drops")
+		set("three_inputs_drop_nonlast", "drops", "empty_term_in_all_inputs")
 	case "C18":
 		set("field_switch_unknown", "merged")
 	}
